@@ -9,22 +9,25 @@ W=/tmp/mutval-$P-$M
 git -C /repo worktree remove --force $W >/dev/null 2>&1
 git -C /repo worktree add -q --detach $W HEAD || exit 2
 DEMO=$(ls $SRC/*_test.go 2>/dev/null | head -1)
+# the tests the demonstration defines (never a fixed naming convention: a pattern that matches nothing "passes")
+RUNPAT='^('$(grep -oE '^func (Test[A-Za-z0-9_]+)' "$DEMO" 2>/dev/null | awk '{print $2}' | paste -sd'|')')$'
 res_clean="n/a"; res_mut="n/a"; suite="n/a"
 if [ -n "$DEMO" ]; then
   cp "$DEMO" $W/trzsz/zz_demo_test.go
-  (cd $W && timeout 300 go test -vet=off -count=1 -run 'Demo|C[0-9][0-9]|ZZ|Mutant|M[12]' ./trzsz >/tmp/mutval.clean.log 2>&1) && res_clean=PASS || res_clean=FAIL
+  (cd $W && timeout 300 go test -vet=off -count=1 -run "$RUNPAT" -v ./trzsz >/tmp/mutval.clean.log 2>&1) && res_clean=PASS || res_clean=FAIL
 fi
 if git -C $W apply "$SRC/patch.diff" 2>/tmp/mutval.apply.log; then
   rm -f $W/trzsz/zz_demo_test.go
   (cd $W && go build ./... >/dev/null 2>&1 && timeout 300 go test -vet=off -count=1 ./... >/tmp/mutval.suite.log 2>&1) && suite=PASS || suite=FAIL
   if [ -n "$DEMO" ]; then
     cp "$DEMO" $W/trzsz/zz_demo_test.go
-    (cd $W && timeout 300 go test -vet=off -count=1 -run 'Demo|C[0-9][0-9]|ZZ|Mutant|M[12]' ./trzsz >/tmp/mutval.mut.log 2>&1) && res_mut=PASS || res_mut=FAIL
+    (cd $W && timeout 300 go test -vet=off -count=1 -run "$RUNPAT" -v ./trzsz >/tmp/mutval.mut.log 2>&1) && res_mut=PASS || res_mut=FAIL
   fi
 else
   suite="PATCH-DOES-NOT-APPLY"
 fi
 git -C /repo worktree remove --force $W >/dev/null 2>&1
+grep -c '^=== RUN' /tmp/mutval.mut.log 2>/dev/null | sed 's/^/demo tests run with change: /'
 echo "confirm $P/$M: demo-on-clean=$res_clean suite-with-change=$suite demo-with-change=$res_mut"
 if [ "$suite" = PASS ]; then
   /verif/scripts/try_mutant.sh "$SRC/patch.diff" "$P" "$@"
